@@ -29,9 +29,9 @@ RULE = ('operations: w/a/x = write key A (two slices / slice+startAppending+slic
         'r/q = read A and closeForReading / closeForReadingAndFreeIdle, s = read B, d = freeEntryByKey(A), f = freeEntry(home anchor), '
         'u/v = openForUpdating + fresh one-slice prefix + closeForUpdating / abortUpdating; 6 anchors, 6 slices, map initially empty or '
         'holding a complete two-slice entry A. quick: all pairs of single operations (fine steps, 1 preemption; atomic steps, 2 '
-        'preemptions), all pairs of two-operation scripts over {x,r,d,u} (fine, 1), all triples over {x,r,d,u} (2). thorough: pairs fine 2 '
-        '/ atomic 3, two-operation scripts over {a,x,r,d,u,b,q} fine 1 and over {a,x,r,d,u} atomic 2, all triples of the 11 operations (2), '
-        'triples over {a,r,d,u} (3). Every '
+        'preemptions), all pairs of two-operation scripts over {x,r,d,u} (fine, 1), all triples over {x,r,d} (2). thorough: pairs fine 2 '
+        '/ atomic 3, two-operation scripts over {a,x,r,d,u,b,q} fine 1 and over {a,x,r,d,u} atomic 2, all triples over {a,x,b,r,d,u,v} (2), '
+        'triples over {r,d,u} (3). Every '
         'schedule within the bound runs the real StoreMap code')
 
 
